@@ -101,6 +101,12 @@ func main() {
 			parts = append(parts, ca1.PEM, ca2.PEM)
 			bundles["one-file-long"] = []string{write("b6.pem", parts...)}
 		}
+		// a file name with shell-pattern characters, next to a file that the pattern would match and that holds a foreign CA
+		write("ca1.pem", foreign.PEM)
+		bundles["file-name-with-brackets"] = []string{write("ca[1].pem", ca1.PEM), write("c?2*.pem", ca2.PEM)}
+		write("cx2yz.pem", foreign.PEM)
+		// a CA whose key was rolled over: two certificates with the same subject name and different keys, the current one last
+		bundles["same-subject-rollover"] = []string{write("b7.pem", caserver.NewCA("verif CA 1").PEM, caserver.NewCA("verif CA 2").PEM, ca1.PEM, ca2.PEM)}
 		bundles["one-file-mixed-blocks"] = []string{write("b5.pem", []byte("# CA bundle of the signing service\n# Subject: CN=verif CA 3"), ca3.PEM, crl, []byte("Subject: CN=verif CA 1\nIssuer: self"), ca1.PEM, ecp, crl, ca2.PEM, []byte("# end"))}
 		// beside everything else (it has to wait for a certificate to lapse): a long-lived signer whose client
 		// certificate expires while it is in use still presents the configured certificate
@@ -129,7 +135,7 @@ func main() {
 				continue
 			}
 			rng := c.Rand
-			bname := []string{"one-file-one-ca", "one-file-three-cas", "two-files", "three-files-no-trailing-newline", "one-file-mixed-blocks", "one-file-long"}[rng.Intn(6)]
+			bname := []string{"one-file-one-ca", "one-file-three-cas", "two-files", "three-files-no-trailing-newline", "one-file-mixed-blocks", "one-file-long", "file-name-with-brackets", "same-subject-rollover"}[rng.Intn(8)]
 			nEp := 1 + rng.Intn(3)
 			perm := rng.Perm(3)
 			var list []string
